@@ -75,6 +75,35 @@ func HarnessC07CloseSubscribe() {
 	})
 }
 
+// HarnessC07CloseSubscribeReplay: persistent mode with one message in the log; a Subscribe (whose replay
+// goroutine walks the log) races with Close. The replay must never observe the log being torn down.
+func HarnessC07CloseSubscribeReplay() {
+	g := NewGoChannel(Config{Persistent: true, BlockPublishUntilSubscriberAck: vrt.Bool("blocking")}, watermill.NopLogger{})
+	vrt.Assert(g.Publish("t", newMsg(0)) == nil, "publish into the log")
+	var late <-chan *message.Message
+	reads := vrt.Bool("consumer.reads")
+	go func() {
+		vrt.MayBlock()
+		ch, err := g.Subscribe(context.Background(), "t")
+		if err != nil {
+			return
+		}
+		late = ch
+		if reads {
+			for m := range ch {
+				m.Ack()
+			}
+		}
+	}()
+	vrt.Assert(g.Close() == nil, "Close returns")
+	vrt.AtQuiescence(func() {
+		if late != nil {
+			vrt.Assert(vrt.IsClosed(late) || vrt.ChanLen(late) > 0, "a subscription that made it in is closed by Close")
+		}
+		vrt.Assert(vrt.Live("gochannel.(*GoChannel)") == 0 && vrt.Live("gochannel.(*subscriber)") == 0, "no Pub/Sub goroutine remains after Close")
+	})
+}
+
 // HarnessC07Cancel: cancelling one subscription (while a Nack / unsettled message / publish is in
 // progress) completes, closes that output channel and leaves the other subscription working.
 func HarnessC07Cancel() {
